@@ -121,7 +121,10 @@ class Ctx:
 
     def __init__(self, dbg):
         self.dbg = dbg
-        r = impl.compile_text(BASE_SRC, 0, dbg, want_listing=False)
+        for _ in range(3):   # a spurious timeout on an overloaded machine must not end the run
+            r = impl.compile_text(BASE_SRC, 0, dbg, limit=60.0, want_listing=False)
+            if r.kind != 'timeout':
+                break
         if not r.ok:
             raise RuntimeError('WX base program does not compile: ' + r.brief())
         self.code = code = r.code
@@ -382,12 +385,26 @@ def explore(prefix, alpha, maxlen, st, viol, count_from=1):
                 stack.append(w + [s])
 
 
+def _unsigned_zero(obs):
+    """the observation with every floating negative zero replaced by zero"""
+    def fix(cells):
+        if cells is None:
+            return None
+        return [(c[0], '0.0' if c[1] == '-0.0' else c[1]) if isinstance(c, (tuple, list)) and len(c) == 2 else c
+                for c in cells]
+    return {k: (fix(v) if k in ('stack', 'locals', 'globals') else v) for k, v in obs.items()}
+
+
 def make_violation(w, r):
     mw = minimise(w, r.div)
     mr = evaluate(ctx_for(mw), mw, want_shapes=True)
     if mr.status != 'violation':
         mw, mr = w, evaluate(ctx_for(w), w, want_shapes=True)
-    feat = {'family': 'windows', 'divergence': '+'.join(mr.div or r.div),
+    div = '+'.join(mr.div or r.div)
+    if mr.obs1 is not None and set(mr.div or ()) <= {'stack', 'locals', 'globals'} and \
+            _unsigned_zero(mr.obs0) == _unsigned_zero(mr.obs1):
+        div = 'sign-of-zero'
+    feat = {'family': 'windows', 'divergence': div,
             'ops': ' '.join(sym_class(s) for s in mw)}
     case = {'kind': 'window', 'window': [list(s) for s in mw], 'text': [sym_text(s) for s in mw],
             'original': [sym_text(s) for s in w], 'before': mr.before, 'after': mr.after,
